@@ -45,6 +45,21 @@ Section Conj.
     exfalso; lia.
   Qed.
 
+  (* cos(pi e/4), sin(pi e/4) as GateSpecs computes them from the unit zeta^e *)
+  Definition cs (e : nat) : K :=
+    match e with 0 => z1 | 1 => s2 | 2 => z0 | 3 => - s2 | 4 => - z1 | 5 => - s2 | 6 => z0 | _ => s2 end.
+  Definition sn (e : nat) : K :=
+    match e with 0 => z0 | 1 => s2 | 2 => z1 | 3 => s2 | 4 => z0 | 5 => - s2 | 6 => - z1 | _ => - s2 end.
+  Ltac small := first [ring [ii2 half2 s22] | apply cancel2; ring [ii2 half2 s22] | do 2 apply cancel2; ring [ii2 half2 s22]
+                      | do 3 apply cancel2; ring [ii2 half2 s22]].
+  Lemma cos_sin_zs : forall e, e < 8 ->
+    (cosu O (zs e) (zsc e) = cs e /\ sinu O (zs e) (zsc e) = sn e) /\
+    (cosu O (zsc e) (zs e) = cs e /\ sinu O (zsc e) (zs e) = - sn e).
+  Proof.
+    intros e He. do 8 (destruct e as [|e]; [repeat split; cbv -[kadd kmul kopp ksub kconj k0 k1 ki khalf ks2]; small|]).
+    exfalso; lia.
+  Qed.
+
   Variables g gc : K.
   Hypothesis U : g * gc = z1.
 
@@ -59,16 +74,16 @@ Section Conj.
           | do 3 apply cancel2; ring [U ii2 half2 s22]
           | do 4 apply cancel2; ring [U ii2 half2 s22] ].
   Ltac mat_eq := cbv -[kadd kmul kopp ksub kconj k0 k1 ki khalf ks2]; split_list; fin.
-  (* replace zeta^e by its closed form, then compute *)
+  (* replace zeta^e and the cos/sin built from it by their closed forms, then compute *)
   Ltac gate_eq e :=
     unfold gate_x, gate_y, gate_z, gate_h, gate_cz, gate_cx, gate_swap,
-           gate_x_inv, gate_y_inv, gate_z_inv, gate_h_inv, gate_cz_inv, gate_cx_inv, gate_swap_inv;
+           gate_x_inv, gate_y_inv, gate_z_inv, gate_h_inv, gate_cz_inv, gate_cx_inv, gate_swap_inv,
+           spec_CXPow, spec_CZPow, spec_SwapPow, spec_XPow, spec_YPow, spec_ZPow, spec_HPow;
     rewrite (proj1 (kpow_zeta e ltac:(lia))), (proj2 (kpow_zeta e ltac:(lia)));
+    cbv zeta;
+    rewrite ?(proj1 (proj1 (cos_sin_zs e ltac:(lia)))), ?(proj2 (proj1 (cos_sin_zs e ltac:(lia)))),
+            ?(proj1 (proj2 (cos_sin_zs e ltac:(lia)))), ?(proj2 (proj2 (cos_sin_zs e ltac:(lia))));
     repeat split; try (intros p; first [destruct p as [[[|] [|]] [|]] | destruct p as [[[[[|] [|]] [|]] [|]] [|]]]); mat_eq.
-  Ltac case8 e H := do 8 (destruct e as [|e]; [|]); [ .. | exfalso; lia ].
-  Ltac all_loc1 p := destruct p as [[[|] [|]] [|]].
-  Ltac all_loc2 p := destruct p as [[[[[|] [|]] [|]] [|]] [|]].
-
   (* what is proved of a gate G with claimed inverse Ginv and local rule f: G P = f(P) G, G P Ginv = f(P), G Ginv = 1 *)
   Definition conj1_ok (G Ginv : matrix) (f : loc1 -> loc1) : Prop :=
     (forall p, mmul O G (pms1 O p) = mmul O (pms1 O (f p)) G) /\
